@@ -136,6 +136,9 @@ impl Session {
         if let Err(errs) = r {
             return Err(BuildError::Rejected(diags(&errs)));
         }
+        if ctx.get_vm().is_none_or(|vm| vm.prog.get_fun_index("dsp").is_none() || vm.prog.iochannels.is_none()) {
+            return Err(BuildError::NoDsp);
+        }
         let skeleton = ctx.get_vm().and_then(|vm| vm.prog.get_dsp_state_skeleton().cloned());
         let main_rc = catch(|| ctx.run_main()).map_err(|p| BuildError::Panicked("main", p))?;
         let rd = catch(|| RuntimeData::try_from(&mut ctx))
@@ -171,6 +174,9 @@ impl Session {
                 return Err(BuildError::Rejected(ds));
             }
         };
+        if out.io_channels.is_none() {
+            return Err(BuildError::NoDsp);
+        }
         let ext_fns = out.ext_fns.clone();
         let plugin_fns = ctx.freeze_wasm_plugin_fns();
         let plugin_fns_keep = plugin_fns.clone();
@@ -220,6 +226,7 @@ impl Session {
         let och = self.io.output as usize;
         let count = self.driver.count.clone();
         let vmdata = self.driver.vmdata.as_mut().expect("not initialised");
+        mimium_lang::verif::reset_steps();
         let r = catch(|| {
             if !input.is_empty() {
                 vmdata.set_input(input);
